@@ -128,6 +128,26 @@ def grid_shard(cells, b, p):
     return stats
 
 
+def chain_shard(b, p):
+    """deterministic chains (ir.chain_programs), as they are and with error checking off: whatever an operation makes of the
+    output of the previous one, the value it reports is the value of its wire"""
+    stats = core.Stats()
+    found = {}
+    for prog0 in ir.chain_programs(b, p):
+        for ign in (False, True):
+            prog = dict(prog0, cfg=dict(prog0["cfg"], ignore=ign))
+            chk = Checker()
+            key = "chain." + "-".join(s_[1] for s_ in prog["stmts"] if s_[0] == "op") + (".ignore" if ign else "")
+            try:
+                m = ir.run_program(prog, after=chk)
+                chk.check_from(m, 0, "end of program")
+            except core.Violation as v:
+                found.setdefault(key, {"case": prog, "msg": v.msg, "key": key})
+            stats.case(prog, True, ("chain" + (":ignore" if ign else ""),), sample_cap=1)
+    stats.violations = list(found.values())
+    return stats
+
+
 def replay(case):
     chk = Checker()
     try:
@@ -157,6 +177,7 @@ def run(ctx):
     for b, p in grids:
         total.merge_json(core.run_shards("harness.checks.c04", "grid_shard",
                                          [dict(cells=cells[i::16], b=b, p=p) for i in range(16)]).to_json())
+    total.merge_json(core.run_shards("harness.checks.c04", "chain_shard", [dict(b=8, p="bn128"), dict(b=16, p="bls12-381")]).to_json())
     total.merge_json(core.run_shards("harness.checks.c04", "shard", shards).to_json())
     total.extra["shard_seeds"] = [s["seed"] for s in shards]
     total.extra["cell_sweep"] = {"cells": len(cells), "modes": MODES, "grids": [list(g) for g in grids]}
